@@ -31,6 +31,7 @@ REQUIRED_THEOREMS = [
     "C08_rotated_Z_mixed_rbm", "C08_rbm_rho_diag", "C08_mixed_rbm", "C08_rbm_rho_hermitian", "C08_ops_hermitian",
     "C08_mixed_rbm_trace_real", "C08_one_value_per_sample",
     "C08_flag_absolute", "C08_flag_periodic", "C08_flag_any_form",   # round 4: constructor flags as the objects the caller passed
+    "C08_pure_rbm", "C08_pure_rbm_pos",   # second audit C08-A1: hypothesis-free instances for the RBM wavefunctions
 ]
 THEOREMS = {
     "sigmaX": "C08_sigmaX (+ C08_represents_pure/_mixed, C08_no_mutation: run = map of the per-sample value)",
@@ -126,7 +127,7 @@ def want_sizes(kind, n, h, a):
     return (n, h, a) if kind == "dens" else (n, h)
 
 
-CTOR_THEOREM = "C08_pure_states / C08_mixed_states (stated for the state of the architecture the caller asked for)"
+CTOR_THEOREM = "C08_pure_rbm / C08_pure_rbm_pos / C08_mixed_rbm (stated for the state of the architecture the caller asked for)"
 
 
 def given_Z(A, st, space_t, Zt):
